@@ -204,7 +204,9 @@ def check_side(facts, sc):
 def rule_r1(ctx, results, facts):
     r = report.RuleResult("C07.R1", "panic-freedom of every site reachable from the public decoding API")
     just = load_justified()
-    jmap = {(j["fn"], j["term"]): j for j in just if j.get("property", "C07") in ("C07", "*")}
+    # `..x` and `0..x` are the same slice: one spelling in the keys
+    canon = lambda t_: t_.replace("agg(std::ops::RangeTo::RangeTo,", "agg(std::ops::Range::Range,0,")
+    jmap = {(j["fn"], canon(j["term"])): j for j in just if j.get("property", "C07") in ("C07", "*")}
     used = set()
     sites = {}
     bad_entries = {}
@@ -231,9 +233,9 @@ def rule_r1(ctx, results, facts):
         if o["verdict"] == "safe":
             r.ok(o["how"] or "interval", {"fn": fn, "obligation": term, "discharged": o["how"] or "interval"})
             continue
-        j = jmap.get((fn, term))
+        j = jmap.get((fn, canon(term)))
         if j is not None:
-            used.add((fn, term))
+            used.add((fn, canon(term)))
             failed = []
             for sc in j.get("side_conditions", []):
                 if sc.get("kind") == "entries_only":
